@@ -31,9 +31,9 @@
    Assumptions: the classical real numbers of the standard library only. *)
 From Coq Require Import Reals Lra Lia List.
 From Coquelicot Require Import Coquelicot.
-From GB Require Import Base.Field Base.FNum Gauss.Moment1D Gauss.Bridge Gauss.DerivBridge
-  Gauss.BridgeR Gauss.GaussInt Model.Eval Model.Shell Model.MomentInt Model.DiffOp Proofs.DiffOpP
-  Proofs.CoreBlockP Proofs.CoreDiffP Proofs.ScreeningP Proofs.CoreNormP.
+From GB Require Import Base.Field Base.FNum Base.Tables Gauss.Moment1D Gauss.Bridge Gauss.DerivBridge
+  Gauss.BridgeR Gauss.GaussInt Model.Eval Model.Shell Model.MomentInt Model.Overlap Model.DiffOp Proofs.DiffOpP
+  Proofs.CoreSumP Proofs.CoreBlockP Proofs.CoreDiffP Proofs.ScreeningP Proofs.CoreNormP.
 Import ListNotations.
 Open Scope R_scope.
 
@@ -414,3 +414,134 @@ Proof.
     unfold ang_z_prim. change (fmul RK) with Rmult. change (fsub RK) with Rminus.
     fold (S1 RK (s_z sa) (s_z sb) al be). ring.
 Qed.
+
+(* ------------------------------------------------------------------ *)
+(* 6. contracted functions: the BLOCK ENTRIES of the models are iterated integrals *)
+(* ------------------------------------------------------------------ *)
+Notation fsumR := (FNum.fsum RK).
+
+Lemma fsumR_S n (f : nat -> R) : fsumR (Tables.mk (S n) f) = fsumR (Tables.mk n f) + f n.
+Proof. exact (fsum_mk_S RK RK_field n f). Qed.
+
+Lemma gint3_zero : gint3 (fun _ _ _ => 0) 0.
+Proof. exists (fun _ _ => 0), (fun _ => 0). repeat split; intros; exact gint_zero. Qed.
+
+Lemma gint3_fsum n (G : nat -> R -> R -> R -> R) (l : nat -> R) :
+  (forall i, (i < n)%nat -> gint3 (G i) (l i)) ->
+  gint3 (fun x y z => fsumR (Tables.mk n (fun i => G i x y z))) (fsumR (Tables.mk n l)).
+Proof.
+  induction n as [|n IH]; intro H.
+  - exact gint3_zero.
+  - refine (gint3_ext _ _ _ _ _ (eq_sym (fsumR_S n l))
+              (gint3_plus _ _ _ _ (IH (fun i Hi => H i (Nat.lt_lt_succ_r _ _ Hi))) (H n (Nat.lt_succ_diag_r n)))).
+    intros x y z. cbv beta. now rewrite fsumR_S.
+Qed.
+
+(* coefficient x primitive norm of primitive k of segment m, component c *)
+Definition cw (s : shell R) (m : nat) (c : Shell.comp) (k : nat) : R :=
+  nth m (nth k (s_coeffs s) []) 0 * norm_prim RK (s_l s) c (nth k (s_exps s) 0).
+
+(* the contracted, normalised Cartesian basis function: segment m, component c of shell s *)
+Definition cfun (s : shell R) (m : nat) (c : Shell.comp) (x y z : R) : R :=
+  fsumR (Tables.mk (length (s_exps s)) (fun k => cw s m c k * sprim s (nth k (s_exps s) 0) c x y z)).
+
+Definition pos_exps3 (s : shell R) : Prop := forall a, In a (s_exps s) -> 0 < a.
+
+(* any primitive-pair integrand G al be, contracted *)
+Theorem contracted_integral (sa sb : shell R) (ca cb : Shell.comp) (ma mb : nat)
+        (G : R -> R -> R -> R -> R -> R) (prim : R -> R -> R) :
+  (forall al be, In al (s_exps sa) -> In be (s_exps sb) -> gint3 (G al be) (prim al be)) ->
+  gint3 (fun x y z =>
+           fsumR (Tables.mk (length (s_exps sa)) (fun ka =>
+             fsumR (Tables.mk (length (s_exps sb)) (fun kb =>
+               cw sa ma ca ka * cw sb mb cb kb * G (nth ka (s_exps sa) 0) (nth kb (s_exps sb) 0) x y z)))))
+        (contracted RK sa sb ca cb ma mb prim).
+Proof.
+  intro H. unfold contracted.
+  apply (gint3_fsum (length (s_exps sa))
+           (fun ka x y z => fsumR (Tables.mk (length (s_exps sb)) (fun kb =>
+               cw sa ma ca ka * cw sb mb cb kb * G (nth ka (s_exps sa) 0) (nth kb (s_exps sb) 0) x y z)))).
+  intros ka Hka.
+  apply (gint3_fsum (length (s_exps sb))
+           (fun kb x y z => cw sa ma ca ka * cw sb mb cb kb
+                            * G (nth ka (s_exps sa) 0) (nth kb (s_exps sb) 0) x y z)).
+  intros kb Hkb.
+  refine (gint3_ext _ _ _ _ _ _
+            (gint3_scal (cw sa ma ca ka * cw sb mb cb kb) _ _
+               (H (nth ka (s_exps sa) 0) (nth kb (s_exps sb) 0) (nth_In _ _ Hka) (nth_In _ _ Hkb)))).
+  - intros x y z. reflexivity.
+  - unfold cw. change (fmul RK) with Rmult. change (f0 RK) with 0. ring.
+Qed.
+
+(* product of two contracted functions with a common factor: the double sum over the primitives *)
+Lemma cfun_product (sa sb : shell R) (ca cb : Shell.comp) (ma mb : nat) (w : R) (x y z : R) :
+  w * cfun sa ma ca x y z * cfun sb mb cb x y z
+  = fsumR (Tables.mk (length (s_exps sa)) (fun ka =>
+      fsumR (Tables.mk (length (s_exps sb)) (fun kb =>
+        cw sa ma ca ka * cw sb mb cb kb
+        * (w * sprim sa (nth ka (s_exps sa) 0) ca x y z * sprim sb (nth kb (s_exps sb) 0) cb x y z))))).
+Proof.
+  unfold cfun.
+  set (fa := fun ka => cw sa ma ca ka * sprim sa (nth ka (s_exps sa) 0) ca x y z).
+  set (fb := fun kb => cw sb mb cb kb * sprim sb (nth kb (s_exps sb) 0) cb x y z).
+  rewrite Rmult_assoc.
+  change (w * (fsumR (Tables.mk (length (s_exps sa)) fa) * fsumR (Tables.mk (length (s_exps sb)) fb)))
+    with (fmul RK w (fmul RK (fsumR (Tables.mk (length (s_exps sa)) fa)) (fsumR (Tables.mk (length (s_exps sb)) fb)))).
+  rewrite (fsum_mk_scale_r RK RK_field), (fsum_mk_scale_l RK RK_field).
+  apply fsum_mk_ext. intros ka _. cbv beta.
+  rewrite (fsum_mk_scale_l RK RK_field), (fsum_mk_scale_l RK RK_field).
+  apply fsum_mk_ext. intros kb _. unfold fa, fb. change (fmul RK) with Rmult. ring.
+Qed.
+
+Section Blocks.
+Variables (sa sb : shell R) (ma ia mb ib : nat).
+Hypothesis Wa : wf_shell sa.
+Hypothesis Wb : wf_shell sb.
+Hypothesis Pa : pos_exps3 sa.
+Hypothesis Pb : pos_exps3 sb.
+Hypothesis Hma : (ma < nseg sa)%nat.
+Hypothesis Hia : (ia < length (comps_of sa))%nat.
+Hypothesis Hmb : (mb < nseg sb)%nat.
+Hypothesis Hib : (ib < length (comps_of sb))%nat.
+Let ca := nth ia (comps_of sa) (0, 0, 0)%nat.
+Let cb := nth ib (comps_of sb) (0, 0, 0)%nat.
+
+(* the entry of the model's overlap block IS the iterated integral of the product of the two
+   contracted, normalised basis functions *)
+Theorem overlap_block_is_integral :
+  gint3 (fun x y z => cfun sa ma ca x y z * cfun sb mb cb x y z)
+        (Overlap.nth4 RK ma ia mb ib (overlap_block RK sa sb)).
+Proof.
+  rewrite (overlap_block_correct RK RK_field fapx_id_R two_neq_0_R sa sb ma ia mb ib Wa Wb
+             (exps_ok_pos_R sa sb Pa Pb) Hma Hia Hmb Hib).
+  fold ca cb.
+  refine (gint3_ext _ _ _ _ _ eq_refl
+            (contracted_integral sa sb ca cb ma mb
+               (fun al be x y z => 1 * sprim sa al ca x y z * sprim sb be cb x y z) _ _)).
+  - intros x y z. cbv beta. rewrite <- cfun_product. ring.
+  - intros al be Ha Hb.
+    refine (gint3_ext _ _ _ _ _ eq_refl (overlap_prim_3d_integral sa sb ca cb al be (Pa _ Ha) (Pb _ Hb))).
+    intros x y z. ring.
+Qed.
+
+(* every slice of the multipole-moment block: iterated integral of (r-C)^o chi_a chi_b *)
+Theorem mm_block_is_integral (Cx Cy Cz : R) (orders : list Shell.comp) (d : nat) :
+  (d < length orders)%nat ->
+  let o := nth d orders (0, 0, 0)%nat in
+  gint3 (fun x y z => (x - Cx) ^ cx o * (y - Cy) ^ cy o * (z - Cz) ^ cz o
+                      * cfun sa ma ca x y z * cfun sb mb cb x y z)
+        (Overlap.nth4 RK ma ia mb ib (nth d (mm_block RK Cx Cy Cz orders sa sb) [])).
+Proof.
+  intros Hd o.
+  rewrite (mm_block_correct RK RK_field fapx_id_R two_neq_0_R Cx Cy Cz orders sa sb Wa Wb
+             (exps_ok_pos_R sa sb Pa Pb) d ma ia mb ib Hd Hma Hia Hmb Hib).
+  fold ca cb o.
+  refine (gint3_ext _ _ _ _ _ eq_refl
+            (contracted_integral sa sb ca cb ma mb
+               (fun al be x y z => ((x - Cx) ^ cx o * (y - Cy) ^ cy o * (z - Cz) ^ cz o)
+                                   * sprim sa al ca x y z * sprim sb be cb x y z) _ _)).
+  - intros x y z. cbv beta. now rewrite <- cfun_product.
+  - intros al be Ha Hb.
+    exact (mom_prim_3d_integral Cx Cy Cz o sa sb ca cb al be (Pa _ Ha) (Pb _ Hb)).
+Qed.
+End Blocks.
